@@ -205,6 +205,7 @@ def run_kani(u, udir, opts, select, harness_filter=None):
             f.write(u.text)
         cmd = ['kani', path] + flags
         env = dict(ENV)
+        env['RUSTFLAGS'] = '--edition 2021'
     else:
         kani_cargo_setup(u, udir)
         cmd = ['cargo', 'kani'] + flags
@@ -251,6 +252,7 @@ def kani_counterexample(u, udir, harness):
     if u.engine == 'kani':
         cmd = ['kani', os.path.join(udir, u.name + '.rs')] + flags
         env = dict(ENV)
+        env['RUSTFLAGS'] = '--edition 2021'
     else:
         cmd = ['cargo', 'kani'] + flags
         env = dict(ENV)
